@@ -21,8 +21,17 @@ def main(tier):
         counts = g.tags("COUNTS")
         run.extra["abstract_space"] = "singles, pairs, settings = " + (counts[0] if counts else "?")
         trace = os.path.join(wd, "trace.ndjson")
+        mitdir = os.path.join(wd, "mit")
+        os.makedirs(mitdir, exist_ok=True)
         vlib.run_harness(["c01", "-seed", str(run.seed), "-tier", run.tier, "-out", trace, "-cases", os.path.join(wd, "cases.ndjson"),
-                          "-settings", os.path.join(wd, "settings.ndjson")], timeout=3400)
+                          "-settings", os.path.join(wd, "settings.ndjson"), "-mitdir", mitdir], timeout=3400)
+        # ---- the specification's decision procedure against MIT Kerberos' acceptor on the same minted requests (validates APExchange, not gokrb5)
+        import mitcross
+        ma = mitcross.mit_apreq_cross(wd, mitdir, 4000)
+        run.extra["apexchange_vs_mit_acceptor"] = {k: v for k, v in ma.items() if k not in ("first", "disagreeing_deviations")}
+        if ma.get("disagreements"):
+            raise vlib.Inconclusive("APExchange and MIT's krb5_rd_req disagree on %d of %d requests (deviations: %s); first: %s"
+                                    % (ma["disagreements"], ma["requests"], ma["disagreeing_deviations"], ma["first"]))
         lines = vlib.read_ndjson(trace)
         run.cov["evaluations"] = 2 * len(lines)
         accepted = sum(1 for x in lines if x["p1"]["ok"])
